@@ -91,11 +91,19 @@ def app_scenario(ctx):
         argv += ['--cluster-radius', repr(float(cutoff))]
     if n_iters is not None:
         argv += ['--cluster-iterations', str(n_iters)]
+    sub = 1
+    if fmt == 'npy' and len(feats) >= 2 and t.flag(1, 4):
+        # every sub-th frame is clustered; centre indices are reported in the coordinates of the files on disk
+        sub = t.irange(2, 3)
+        argv += ['--subsample', str(sub), '--no-reassign']
+        ctx.hit('app_subsample')
     ctx.scenario.update(P.describe(), family='app', algo=algo, n_clusters=k, dist_cutoff=cutoff, n_iters=n_iters, features=fmt,
                         poison=poison, argv=[a if not a.startswith(d) else os.path.basename(a) for a in argv])
     ctx.fp('app', P.N, tuple(P.lengths), P.dtype, P.metric_name, algo, k, cutoff, n_iters, fmt, poison, P.X.tobytes())
     # serial reference: the library's own serial algorithm on the concatenated data
     kw = C.kc_kwargs(k, cutoff)
+    if sub > 1:
+        return app_subsampled(ctx, P, e, capp, argv, out, rows, starts, sub, k, cutoff, algo, poison, d)
     serial = ctx.sut(e['kcenters'].kcenters, P.X.copy(), P.metric_name, **kw)
     g, tie_free = M.greedy_run(P.X, P.model_metric, k, cutoff, tol=P.tie_tol(), cut_tol=P.cut_tol())
     old_mode = capp.mpi_mode
@@ -147,3 +155,52 @@ def app_scenario(ctx):
         if tie_free:
             require(len(gi) == len(serial.center_indices), 'cluster_count_changed', 'k-hybrid changed the number of clusters')
             require(M.cost(d_flat) <= M.cost(serial.distances) * (1 + 1e-12), 'cost_increased', 'k-hybrid output worse than its k-centers start')
+
+
+def app_subsampled(ctx, P, e, capp, argv, out, rows, starts, sub, k, cutoff, algo, poison, d):
+    t = ctx.tape
+    srows = [r[::sub] for r in rows]
+    Xs = np.concatenate(srows)
+    slens = [len(r) for r in srows]
+    sstarts = np.concatenate([[0], np.cumsum(slens)[:-1]]).astype(int)
+    kw = C.kc_kwargs(k, cutoff)
+    serial = ctx.sut(e['kcenters'].kcenters, Xs.copy(), P.metric_name, **kw)
+    g, tie_free = M.greedy_run(Xs, P.model_metric, k, cutoff, tol=P.tie_tol(), cut_tol=P.cut_tol())
+    old_mode = capp.mpi_mode
+    capp.mpi_mode = P.N > 1
+    np.random.seed(t.draw(2 ** 31 - 1))
+    try:
+        with write_guard(ctx, d) as writers:
+            with C.Poison(ctx, poison, seed=3):
+                w = C.make_world(ctx, P.N, poison)
+                rcs = w.run(lambda r: capp.main(list(argv)))
+    finally:
+        capp.mpi_mode = old_mode
+    st = w.stats()
+    ctx.steps += st['collectives'] + st['decisions']
+    ctx.fp(tuple(w.sched_trace), 'sub', sub)
+    if st['decisions'] > 0 and P.N >= 2:
+        ctx.nontrivial = True
+    ctx.hit('app_end_to_end')
+    require(all(rc == 0 for rc in rcs), 'app_failed', lambda: 'main() returned %s' % rcs)
+    bad_writers = sorted({(r, f) for r, f in writers if r != 0})
+    require(not bad_writers, 'non_root_rank_wrote_output', lambda: 'ranks other than 0 opened for writing: %s' % bad_writers[:6])
+    for key in ('ctr', 'inds'):
+        require(os.path.exists(out[key]), 'output_missing', lambda: 'no %s file' % key)
+    inds = np.load(out['inds'], allow_pickle=True)
+    ctrs = np.load(out['ctr'], allow_pickle=True)
+    require(len(inds) == len(ctrs), 'center_count_mismatch', lambda: '%d centre indices, %d centre coordinates' % (len(inds), len(ctrs)))
+    gi = []
+    for (tr, fr), c in zip(inds, ctrs):
+        tr, fr = int(tr), int(fr)
+        require(0 <= tr < len(rows) and 0 <= fr < len(rows[tr]), 'center_index_wrong',
+                lambda: 'centre (%d, %d) is outside the files on disk (lengths %s, --subsample %d)' % (tr, fr, [len(r) for r in rows], sub))
+        require(np.array_equal(np.asarray(c).reshape(rows[tr][fr].shape), rows[tr][fr]), 'center_not_frame',
+                lambda: 'centre index (%d, %d) addresses frame %s of the file, the centre written is %s (--subsample %d)' %
+                (tr, fr, rows[tr][fr].tolist(), np.asarray(c).tolist(), sub))
+        require(fr % sub == 0, 'center_index_wrong', lambda: 'frame %d was never loaded with --subsample %d' % (fr, sub))
+        gi.append(int(sstarts[tr] + fr // sub))
+    if (algo == 'kcenters' or '--cluster-iterations' not in argv or argv[argv.index('--cluster-iterations') + 1] == '0') and tie_free:
+        require(gi == [int(c) for c in serial.center_indices], 'differs_from_serial',
+                lambda: 'subsampled run on %d ranks: centres %s, serial run on the strided data gives %s' % (P.N, gi, list(map(int, serial.center_indices))))
+        ctx.hit('app_equals_serial')
